@@ -79,6 +79,22 @@ def problems(poly):
                     break
     except Exception as err:  # pylint: disable=broad-except
         out.append(f"values unreadable: {type(err).__name__}: {err}")
+    # the exponent matrix handed out belongs to the caller: writing into it must not change what
+    # this (or any other) polynomial reports afterwards (seed C03-r13-1: shared memo of decoded keys)
+    try:
+        mine = poly.exponents
+        if isinstance(mine, numpy.ndarray) and mine.size and mine.flags.writeable:
+            mine += 1
+            try:
+                again = [tuple(int(e) for e in row) for row in numpy.asarray(poly.exponents)]
+            finally:
+                mine -= 1
+            if again != rows:
+                out.append("writing into the matrix returned by .exponents changed the exponents "
+                           f"the polynomial reports: {rows[:3]} -> {again[:3]}")
+    except Exception as err:  # pylint: disable=broad-except
+        out.append(f"exponents not re-readable after the caller wrote into its copy: "
+                   f"{type(err).__name__}: {err}")
     return out
 
 
